@@ -19,7 +19,7 @@ NCancel == Len(SelectSeq(hist, LAMBDA h : h.ev.e = "Cancel"))
 NextH == /\ Next
          /\ (ev'.e = "Cancel" => NCancel < MaxCancel)
          /\ hist' = Append(hist, [ev |-> ev', obs |-> Obs'])
-Beh == [cfg |-> [cap |-> cfg.cap, maxIdle |-> cfg.maxIdle, idleTimeout |-> cfg.it], steps |-> hist]
+Beh == [cfg |-> [cap |-> cfg.cap, maxIdle |-> cfg.maxIdle, idleTimeout |-> cfg.it, noPool |-> cfg.nopool], steps |-> hist]
 Emit == (Len(hist) >= GenDepth \/ (Len(hist) > 0 /\ ~ENABLED Next)) => PrintT(<<"REPLAY", ToJson(Beh)>>)
 StopAtDepth == Len(hist) <= GenDepth
 =============================================================================
